@@ -115,6 +115,9 @@ class Real:
         if id(v) not in self.vid:
             if v.name is None:
                 v.name = ""  # None and "" are identified (ASSUMPTIONS)
+            if v.type is None:
+                # every value carries a tensor type, so that a shape given to it later is serialized (ASSUMPTIONS)
+                v.type = self.ir.TensorType(self.ir.DataType.FLOAT)
             self.vid[id(v)] = len(self.values)
             self.values.append(v)
         return self.vid[id(v)]
